@@ -168,12 +168,12 @@ def clsArrOK (c : Bytes) : Bool := !c.contains 58 && !c.contains 46 && !fixedWor
 mutual
 /-- `G₀`: scalars, lists, tuples, sets, frozensets, dicts (keys are scalars by construction of the model, hence
     self-delimiting), objects of the generic fallback, numpy arrays, inline types, functions with source.  No back
-    references, no code objects, no tasks / classes with fields. -/
+    references, no code objects / partials / bound methods (tagged sequences outside the word table), no tasks / classes with fields. -/
 def inG0 : PyVal → Bool
   | .sc a => decide a.WF
   | .ndarray c d s _ => clsArrOK c && !d.contains 58 && !s.contains 58
   | .ty t => !t.isArglist    -- a bare argument list is not a type
-  | .seq _ k xs => (k != SeqKind.code) && inG0List xs
+  | .seq _ k xs => (k == SeqKind.list || k == SeqKind.tuple) && inG0List xs
   | .set _ _ xs => inG0List xs
   | .dict _ items => items.all (fun kv => decide kv.1.WF) && inG0Items items
   | .obj _ c fs => clsObjOK c && fs.all (fun kv => decide kv.1.WF) && inG0Items fs
